@@ -104,7 +104,12 @@ BCase(t, i) ==
 \* an expression whose leaves are all int literals is of type int: it is not assignable to a real parameter / field
 RECURSIVE AllInt(_)
 AllInt(t) == IF t[1] = "lit" THEN t[2] = "3" ELSE IF t[1] = "var" THEN FALSE ELSE IF t[1] = "neg" THEN AllInt(t[2]) ELSE AllInt(t[2]) /\ AllInt(t[3])
-Cases == {ArCase(t, i) : t \in ArTrees, i \in 1..2} \cup {ArCase(t, i) : t \in {u \in ArTrees : ~AllInt(u)}, i \in 3..4}
+\* the forms of numeric literals: fractions with leading zeros, trailing zeros, several digits on both sides
+LitForms == {Lit("0.05", <<1, 20>>), Lit("1.05", <<21, 20>>), Lit("2.001", <<2001, 1000>>), Lit("0.004", <<1, 250>>), Lit("10.010", <<1001, 100>>),
+             Lit("0.25", <<1, 4>>), Lit("7.00", <<7, 1>>), Lit("12.5", <<25, 2>>), Lit("0.125", <<1, 8>>), Lit("100.001", <<100001, 1000>>),
+             Lit("0.50", <<1, 2>>), Lit("3.0625", <<49, 16>>), Lit("0.0", <<0, 1>>), Lit("20", <<20, 1>>), Lit("1.10", <<11, 10>>), Lit("0.909", <<909, 1000>>)}
+LitTrees == LitForms \cup {Bin("add", l, Var("a", <<2, 1>>)) : l \in LitForms} \cup {Bin("mul", Lit("2.0", <<2, 1>>), l) : l \in LitForms}
+Cases == {ArCase(t, i) : t \in LitTrees, i \in 1..2} \cup {ArCase(t, i) : t \in ArTrees, i \in 1..2} \cup {ArCase(t, i) : t \in {u \in ArTrees : ~AllInt(u)}, i \in 3..4}
          \cup {BCase(t, i) : t \in BTrees, i \in 1..2}
 ASSUME ndJsonSerialize(Out, SetToSeq(Cases))
 ASSUME PrintT(<<"GENERATED", Cardinality(Cases)>>)
